@@ -25,10 +25,10 @@ type lifeSpec struct {
 	OnReplay   func(s *Sim, os []Oracle)
 }
 
-var lifeActions = []string{"storeNew", "storeUpdate", "complete", "cancel", "terminate", "renew", "migrate", "claim", "advance", "storeHostile", "seed", "vstorage", "bankDrain", "resetNode", "debtCombo", "keepAlive", "permission", "storeStale", "migRotate", "fault", "forceAfterRenew", "settleAfterMig", "poorTakeover", "claimBurst", "claimUnderDebt", "secondMigration"}
+var lifeActions = []string{"storeNew", "storeUpdate", "complete", "cancel", "terminate", "renew", "migrate", "claim", "advance", "storeHostile", "seed", "vstorage", "bankDrain", "resetNode", "debtCombo", "keepAlive", "permission", "storeStale", "migRotate", "fault", "forceAfterRenew", "settleAfterMig", "poorTakeover", "claimBurst", "claimUnderDebt", "secondMigration", "fillThenZero"}
 
 // actions that are off unless a spec gives them a weight
-var lifeOptIn = map[string]bool{"storeHostile": true, "seed": true, "vstorage": true, "bankDrain": true, "resetNode": true, "debtCombo": true, "keepAlive": true, "permission": true, "storeStale": true, "migRotate": true, "fault": true, "forceAfterRenew": true, "settleAfterMig": true, "poorTakeover": true, "claimBurst": true, "claimUnderDebt": true, "secondMigration": true}
+var lifeOptIn = map[string]bool{"storeHostile": true, "seed": true, "vstorage": true, "bankDrain": true, "resetNode": true, "debtCombo": true, "keepAlive": true, "permission": true, "storeStale": true, "migRotate": true, "fault": true, "forceAfterRenew": true, "settleAfterMig": true, "poorTakeover": true, "claimBurst": true, "claimUnderDebt": true, "secondMigration": true, "fillThenZero": true}
 
 func (sp *lifeSpec) newSim(t TB) (*Sim, *LifeCfg, []Oracle) {
 	os := sp.Oracles()
@@ -65,12 +65,15 @@ func (sp *lifeSpec) property() func(*rapid.T) {
 					s.Label("world-few-providers")
 				}
 			}
+			if cfg.Capacity != 0 {
+				capacity = cfg.Capacity
+			}
 			s.SetupStorage(cfg, capacity)
 			gens := map[string]func(*rapid.T, *Sim) *Action{
 				"storeNew": cfg.GenStoreNew, "storeUpdate": cfg.GenStoreUpdate, "complete": cfg.GenComplete,
 				"cancel": cfg.GenCancel, "terminate": cfg.GenTerminate, "renew": cfg.GenRenew,
 				"migrate": cfg.GenMigrate, "claim": cfg.GenClaim, "advance": cfg.GenAdvance,
-				"storeHostile": cfg.GenStoreHostile, "seed": cfg.GenSeed, "vstorage": cfg.GenVstorage, "bankDrain": cfg.GenBankDrain, "resetNode": cfg.GenResetNode, "debtCombo": cfg.GenDebtCombo, "keepAlive": cfg.GenKeepAlive, "permission": cfg.GenPermission, "storeStale": cfg.GenStoreStale, "migRotate": cfg.GenMigrationAcrossRotation, "fault": cfg.GenFault, "forceAfterRenew": cfg.GenForceAfterRenew, "settleAfterMig": cfg.GenSettleAfterMigration, "poorTakeover": cfg.GenPoorTakeover, "claimBurst": cfg.GenClaimBurst, "claimUnderDebt": cfg.GenClaimUnderDebt, "secondMigration": cfg.GenSecondMigration,
+				"storeHostile": cfg.GenStoreHostile, "seed": cfg.GenSeed, "vstorage": cfg.GenVstorage, "bankDrain": cfg.GenBankDrain, "resetNode": cfg.GenResetNode, "debtCombo": cfg.GenDebtCombo, "keepAlive": cfg.GenKeepAlive, "permission": cfg.GenPermission, "storeStale": cfg.GenStoreStale, "migRotate": cfg.GenMigrationAcrossRotation, "fault": cfg.GenFault, "forceAfterRenew": cfg.GenForceAfterRenew, "settleAfterMig": cfg.GenSettleAfterMigration, "poorTakeover": cfg.GenPoorTakeover, "claimBurst": cfg.GenClaimBurst, "claimUnderDebt": cfg.GenClaimUnderDebt, "secondMigration": cfg.GenSecondMigration, "fillThenZero": cfg.GenFillThenZero,
 			}
 			var menu []string
 			for _, k := range lifeActions {
@@ -242,6 +245,7 @@ var specC05 = &lifeSpec{
 	Tune: func(cfg *LifeCfg, s *Sim) {
 		s.TraceSteps = true
 		cfg.TimeoutHi = 12
+		cfg.ZeroTimeouts = true
 	},
 	Nontrivial: func(s *Sim, os []Oracle) bool {
 		return os[0].(*C05Oracle).Ended > 0 && (s.Labels["c05-after-reassign"]+s.Labels["c05-update"] > 0 || s.Labels["c05-ended-timeout"] > 0)
